@@ -120,9 +120,60 @@ def run_config(cfg):
         shutil.rmtree(d, ignore_errors=True)
 
 
+def stage_two_labs(report, dist):
+    """Two Labs with the fork backend run at the same time in two threads of one interpreter; the one that finishes first closes its
+    runner while the other still has a task to fork: that task's worker inherits the memory of *its* runner all the same."""
+    import time
+    from labtech.lab import Lab
+    d = tempfile.mkdtemp(dir=subdir('twolabs'))
+    gdir = os.path.join(d, 'gates')
+    os.makedirs(gdir)
+    os.environ['LV_GATEDIR'] = gdir
+    os.environ['LV_GATE_TIMEOUT'] = '30'
+    try:
+        a1 = U.Ta(label=1)
+        a2 = U.Tab(label=2, deps=(a1,), reads=(0,))
+        b1 = U.Ta(label=11)
+        for lbl in (2, 11):
+            open(os.path.join(gdir, f'go_{lbl}'), 'w').close()        # only task 1 is held back
+        out = {}
+
+        def runner(name, tasks, ctx):
+            try:
+                lab = Lab(storage=None, runner_backend='fork', max_workers=1, continue_on_failure=True, context=ctx, notebook=False)
+                out[name] = lab.run_tasks(tasks, disable_progress=True, disable_top=True)
+            except BaseException as e:   # noqa
+                out[name] = e
+        ta = threading.Thread(target=runner, args=('A', [a2], {'a': 1}))
+        ta.start()
+        deadline = time.monotonic() + 20
+        while not os.path.exists(os.path.join(gdir, 'started_1')) and time.monotonic() < deadline:
+            time.sleep(0.01)
+        tb = threading.Thread(target=runner, args=('B', [b1], {'a': 2}))
+        tb.start()
+        tb.join(30)                                                       # Lab B is done, its runner closed
+        open(os.path.join(gdir, 'go_1'), 'w').close()                     # now Lab A goes on: task 2 is forked
+        ta.join(40)
+        dist['two_lab_runs'] += 1
+        ok_b = isinstance(out.get('B'), dict) and out['B'].get(b1) == ('N', 11, ())
+        ok_a = isinstance(out.get('A'), dict) and out['A'].get(a2) == ('N', 2, (('N', 1, ()),))
+        if not (ok_a and ok_b) or ta.is_alive():
+            report.violation('C16:fork-memory-lost', f'two Labs (fork backend) running in two threads: Lab B finished and closed its runner while Lab A still had a task to fork; '
+                                                     f'Lab A ended with {out.get("A")!r}, Lab B with {out.get("B")!r}: a worker forked by A did not find the memory of its runner',
+                             dict(level='two-labs'))
+    finally:
+        os.environ.pop('LV_GATEDIR', None)
+        os.environ.pop('LV_GATE_TIMEOUT', None)
+        shutil.rmtree(d, ignore_errors=True)
+
+
 def run(prop, report, tier, seed, replay=None):
     rng = rng_for(seed, prop, 'env')
     cfgs = []
+    if replay and replay['input'].get('level') == 'two-labs':
+        stage_two_labs(report, Counter())
+        report.coverage.update(evaluations=1, distinct_nontrivial=1, rule='replay', distribution={})
+        return
     if replay:
         cfgs = [replay['input']['config']]
     else:
@@ -155,6 +206,8 @@ def run(prop, report, tier, seed, replay=None):
             cfgs.append(dict(backend=b, max_workers=2, filter=filt, n=2, context={'a': 1, 'k0': 'x', 'k1': [1, 2]}, helper_thread=False, rerun=how))
     dist = Counter()
     samples = []
+    if not replay:
+        stage_two_labs(report, dist)
     baseline = {}
     caller_pid, caller_thread = os.getpid(), threading.get_ident()
     for cfg in cfgs:
